@@ -173,6 +173,10 @@ Ret(e) ==
        THEN Reject("noop-success-without-effect", [lastGet |-> r.lastGet], e.cls)
   ELSE IF IsRmw(c.h) /\ ok /\ r.nw = 0 /\ ExpOf(c) # "any" /\ r.lastGet.phase # ExpOf(c)
        THEN Reject("success-in-wrong-phase", [expected |-> ExpOf(c)], r.lastGet)
+  (* an error needs its justification: a phase conflict may be reported only by a call that expects a phase, and only if it *)
+  (* saw the resource in another phase (its last read) or the store refused its write for that reason                      *)
+  ELSE IF IsRmw(c.h) /\ e.cls = "phaseconflict" /\ (ExpOf(c) = "any" \/ (~r.sawConf /\ (~r.gotAny \/ r.lastGet.phase = ExpOf(c))))
+       THEN Reject("error-without-justification", [expects |-> ExpOf(c), lastGet |-> r.lastGet], e.cls)
   ELSE IF c.h = "teardown" /\ ok /\ e.ready /\ (IF r.nw = 1 THEN r.lastWrite ELSE r.lastGet).fins # {}
        THEN Reject("ready-with-finalizers", {}, (IF r.nw = 1 THEN r.lastWrite ELSE r.lastGet).fins)
   ELSE IF c.h = "tad" /\ ok /\ ndestroy = r.destroys0 THEN Reject("tad-success-not-gone", "a destroy during the call", store)
